@@ -377,7 +377,24 @@ def strat_mh(tier):
         'order': st.one_of(st.none(), st.permutations([0, 1, 2])),
         # a second sample() call on the same BSL object (a pilot run followed by the real run): (n, start away from the first start?)
         'second': st.one_of(st.none(), st.none(), st.tuples(st.integers(3, 15), st.booleans())),
+        # transform bounds LOOSER than the prior support, per parameter (0 same, 1 no bound at all, 2 every finite side 1.0 further out,
+        # 3 upper side dropped): proposals made in transformed space can then leave the prior support
+        'loosen': st.one_of(st.just([0, 0, 0]), st.lists(st.sampled_from([0, 1, 2, 3]), min_size=3, max_size=3)),
     })
+
+
+def _loosen(bound, choices):
+    out = np.array(bound, dtype=float)
+    for i, c in enumerate(choices[:len(out)]):
+        lo, hi = out[i]
+        if c == 1:
+            lo, hi = -np.inf, np.inf
+        elif c == 2:
+            lo, hi = lo - 1.0, hi + 1.0
+        elif c == 3:
+            hi = np.inf
+        out[i] = (lo, hi)
+    return out
 
 
 def run_mh(case):
@@ -389,6 +406,9 @@ def run_mh(case):
     names = ['p%d' % i for i in range(k)]
     a, w = 0.0, 2.0
     bound = _bounds(types, a, w)
+    loosened = bool(case.get('loosen')) and any(case['loosen'][:k]) and case['transform'] == 'all'
+    if loosened:
+        bound = _loosen(bound, case['loosen'])      # from here on `bound` is the TRANSFORM's bound; the prior support stays in `dists`
     m = elfi.ElfiModel(name='c20model')
     ps, dists = [], []
     for nm, t in zip(names, types):
@@ -420,7 +440,7 @@ def run_mh(case):
     sigma = np.eye(k) * case['sigma'] ** 2
     params0 = np.array([1.0] * k)
     use_tr = case['transform'] == 'all'
-    ctx = 'bound types=%r param_names=%r transform=%s n=%d n_sim_round=%d batch_size=%d sigma=%r seed=%d' % (types, param_names, case['transform'], n, nsr, bs, case['sigma'], case['seed'])
+    ctx = 'prior types=%r transform bounds=%r param_names=%r transform=%s n=%d n_sim_round=%d batch_size=%d sigma=%r seed=%d' % (types, bound.tolist(), param_names, case['transform'], n, nsr, bs, case['sigma'], case['seed'])
     LOG['sim'] = 0
     LOG['lik'] = []
     LOG['params'] = []
@@ -453,6 +473,8 @@ def run_mh(case):
             return CaseResult(['borderline-acceptance'], None)
         labels0.append('second-sample-call')
     labels, nontrivial = out
+    if loosened:
+        labels0.append('transform-bounds-looser-than-prior-support')
     return CaseResult(labels + labels0, nontrivial)
 
 
@@ -551,7 +573,7 @@ CHECK = Check(
           'and > 0), unbiased (Ghurye-Olkin), misspecification mean / variance with random gamma, and for the standard / misspecification variants also 40-150 summaries and summaries of scale 1e-3..1e4 (determinant outside the double range); transform: 1-4 parameters with two-sided, '
           'lower-only, upper-only and no bounds, theta~ in [-12, 12] or up to +-100 and theta strictly inside (1e-20..1e20 away from a one-sided bound at 0); every likelihood also evaluated twice on the same arrays; MH: whole BSL chains of 3-30 iterations on a '
           'real model with a stub likelihood and a logging simulator, with and without the bounded-parameter transform, proposal scales '
-          '0.05-3 (so that proposals leave the prior support), parameters listed in model or permuted order, optionally a SECOND sample() call on the same object. Non-trivial: d >= 2 with correlated summaries; a two-sided together with a '
+          '0.05-3 (so that proposals leave the prior support), transform bounds equal to or LOOSER than the prior support (a proposal made in transformed space can then fall outside the support), parameters listed in model or permuted order, optionally a SECOND sample() call on the same object. Non-trivial: d >= 2 with correlated summaries; a two-sided together with a '
           'one-sided bound; an MH chain with accepted and rejected moves that uses mixed bounds or had a proposal outside the prior support.'),
     parts=[Part('likelihood', run_lik, strategy=strat_lik, examples={'quick': 600, 'thorough': 32000}),
            Part('transform', run_tr, strategy=strat_tr, examples={'quick': 800, 'thorough': 32000}),
